@@ -25,6 +25,10 @@ def qvec(rng, n, kind, r=2):
         return rng.integers(-2, 3, size=n) * 10**9
     if kind == 'pairs':
         return (rng.integers(-1, 2, size=n) << 16) + rng.integers(-1, 2, size=n)
+    if kind == 'huge':
+        # charges beyond 2**53 that differ by one or two units: not representable as (distinct) doubles
+        base = int(rng.choice([(1 << 53) + 1, (1 << 60) + 12345, 10 ** 18 + 7, -(1 << 61) - 3]))
+        return base + rng.integers(-r, r + 1, size=n).astype(np.int64)
     if kind == 'negative':
         return -rng.integers(0, 2 * r + 1, size=n)
     raise ValueError(kind)
